@@ -880,7 +880,33 @@ func (p *Prog) tickRoles(ccFn *Func) (ticks []*Func, checkingTimeoutObj, checkin
 		c, ok := unparen(rhs).(*ast.CallExpr)
 		return ok && p.CalleeName(c) == "time.Now"
 	})
-	lastStateObj = p.locByDef(tick0, nil, func(rhs ast.Expr) bool { return p.IsField(rhs, "Agent.connectionState") })
+	// the previous-tick state: the location that outlives the tick (a variable captured from outside it, or a
+	// field) and is assigned the agent's state, directly or through a snapshot local — not that snapshot local
+	if tick0 != nil && tick0.Body != nil {
+		ast.Inspect(tick0.Body, func(n ast.Node) bool {
+			as, ok := n.(*ast.AssignStmt)
+			if !ok || as.Tok != token.ASSIGN || len(as.Lhs) != len(as.Rhs) || lastStateObj != nil {
+				return true
+			}
+			for i, rr := range as.Rhs {
+				if !p.IsField(p.Deref(p.EnclosingFunc(rr.Pos()), rr), "Agent.connectionState") {
+					continue
+				}
+				l := unparen(as.Lhs[i])
+				if id, ok := l.(*ast.Ident); ok {
+					if v, ok := p.ObjOf(id).(*types.Var); ok && (v.Pos() < tick0.Body.Pos() || v.Pos() > tick0.Body.End()) {
+						lastStateObj = v
+					}
+				} else if fv := p.FieldOf(l); fv != nil {
+					lastStateObj = fv
+				}
+			}
+			return true
+		})
+	}
+	if lastStateObj == nil {
+		lastStateObj = p.locByDef(tick0, nil, func(rhs ast.Expr) bool { return p.IsField(rhs, "Agent.connectionState") })
+	}
 	return
 }
 
@@ -954,6 +980,60 @@ func checkTickDiscipline(p *Prog, r *Report) {
 				}
 			}
 			r.Check(ev == want, "check tick row "+rowKey(sp, "state", "state#2", "entered", "enabled", "deadline"), sp.EndPos, "-> ["+want+"]", "the tick does ["+ev+"], the documented behaviour is ["+want+"]")
+		}
+		// what is recorded is the state at that moment: the field itself, or a snapshot of it taken in the
+		// same function literal with nothing but plain local statements in between — not a snapshot taken
+		// before the tick's own transitions (the Failed it has just requested would be recorded as Checking
+		// and a Restart before the next tick would then not re-arm the deadline)
+		if tick.Body != nil && lastStateObj != nil {
+			var lits []ast.Node
+			var visit func(n ast.Node) bool
+			visit = func(n ast.Node) bool {
+				switch x := n.(type) {
+				case *ast.FuncLit:
+					lits = append(lits, x.Body)
+					ast.Inspect(x.Body, visit)
+					lits = lits[:len(lits)-1]
+					return false
+				case *ast.AssignStmt:
+					if len(x.Lhs) != 1 || len(x.Rhs) != 1 || !p.isLoc(x.Lhs[0], lastStateObj) {
+						return true
+					}
+					scope := ast.Node(tick.Body)
+					if len(lits) > 0 {
+						scope = lits[len(lits)-1]
+					}
+					fresh := p.IsField(x.Rhs[0], "Agent.connectionState")
+					if id, ok := unparen(x.Rhs[0]).(*ast.Ident); ok && !fresh {
+						if v, ok := p.ObjOf(id).(*types.Var); ok && v.Pos() > scope.Pos() && v.Pos() < scope.End() {
+							if d, okD := p.SingleDef(tick, v); okD && d.Rhs != nil && p.IsField(d.Rhs, "Agent.connectionState") {
+								fresh = true
+								ast.Inspect(scope, func(y ast.Node) bool {
+									if y == nil || y.Pos() <= v.Pos() || y.Pos() >= x.Pos() {
+										return true
+									}
+									switch z := y.(type) {
+									case *ast.CallExpr, *ast.GoStmt, *ast.DeferStmt, *ast.SendStmt, *ast.UnaryExpr:
+										if u, isU := z.(*ast.UnaryExpr); !isU || u.Op == token.ARROW {
+											fresh = false
+										}
+									case *ast.AssignStmt:
+										for _, l := range z.Lhs {
+											if _, isId := unparen(l).(*ast.Ident); !isId {
+												fresh = false
+											}
+										}
+									}
+									return true
+								})
+							}
+						}
+					}
+					r.Check(fresh, "check tick: the recorded previous state is the state at the time of recording", p.Pos(x.Pos()), "the value stored is Agent.connectionState read there", "the tick records "+types.ExprString(x.Rhs[0])+", which is not the agent's state at that moment (a snapshot taken before the tick's own transition): after deadline -> Failed and a Restart before the next tick, the Checking deadline is not re-armed and the agent fails early")
+				}
+				return true
+			}
+			ast.Inspect(tick.Body, visit)
 		}
 		// previous-tick state recorded on every exit: a deferred assignment
 		deferred := false
